@@ -177,6 +177,10 @@ def generate(prop, seed, tier):
         if kind == "fit_other":
             op["source"] = "scaled"  # same family, truth moved away (x1.5 / shifted)
             op["factor"] = core.r6(S.uni(1.3, 2.2))
+            if S.chance(0.4):
+                # the data do not follow the declared fixed values either (a deliberately different
+                # fixed value): the free parameters are still the estimates *given* the fixed ones
+                op["source"] = "misfixed"
         if kind == "fit_bad":
             op["source"] = "rejected"  # F2: data the estimator rejects
         scen["ops"].append(op)
@@ -246,10 +250,65 @@ def _data(scen, op):
             if p not in scen["fixed"]:
                 lo, hi = FAM[fam][1][p]
                 truth[p] = min(max(truth[p] * op["factor"], lo), hi * 2) if truth[p] > 0 else truth[p] - op["factor"]
+    if op["source"] == "misfixed":
+        for p in FAM[fam][0]:
+            lo, hi = FAM[fam][1][p]
+            f = op["factor"] if p not in scen["fixed"] else 1.0 / (0.5 + 0.5 * op["factor"])
+            truth[p] = min(max(truth[p] * f, lo), hi * 2) if truth[p] > 0 else truth[p] - (f if p not in scen["fixed"] else 0.3 * f)
     x = draw(fam, truth, op["n"], op["dseed"])
     if op["source"] == "rejected":
         x = -np.abs(x) - 1.0  # negative values into a positive-support family -> scipy FitDataError
     return x
+
+
+# Judged only where the class's estimator is a maximum-likelihood estimator with a bounded, smooth
+# likelihood.  Calibration on the repaired tree (6 000 runs): for Normal, LogNormal, von Mises and the
+# scipy-backed Gumbel no perturbation ever raised the log-likelihood at all; the three-parameter
+# families have unbounded likelihoods (gains of 1e17 ... 1e64 next to the location / for small shapes),
+# LogNormalNormFit estimates by moments (gains up to 78) and the gamma with free location up to 0.5 -
+# those are not judged.  Tolerance: 1e-5 per observation.
+TOL_I6 = {"Normal": 1e-5, "LogNormal": 1e-5, "VonMises": 1e-5, "ScipyGumbel": 1e-5}
+
+
+def check_mle_optimal(run, scen, dist, data, step, op):
+    """I6: "the non-fixed parameters are estimated" - by maximum likelihood *given* the fixed values:
+    no nearby admissible change of a free parameter may raise the log-likelihood (harness's own
+    statement of the family's density) by more than the estimator's tolerance."""
+    import os
+
+    fam = scen["family"]
+    if fam not in TOL_I6 and not os.environ.get("VERIF_CALIB"):
+        return False
+    cur = {k: float(v) for k, v in dist.parameters.items()}
+    free = [p for p in cur if p not in scen["fixed"]]
+
+    def ll(pv):
+        try:
+            with np.errstate(all="ignore"):
+                v = float(np.sum(ref_frozen(fam, pv).logpdf(data)))
+        except Exception:  # noqa: BLE001
+            return None
+        return v if math.isfinite(v) else None
+
+    l0 = ll(cur)
+    if l0 is None:
+        return False
+    worst = (0.0, None, None)
+    for p in free:
+        for rel in (0.002, -0.002, 0.02, -0.02):
+            q = dict(cur)
+            q[p] = cur[p] + rel * (abs(cur[p]) + 1e-3)
+            l1 = ll(q)
+            if l1 is not None and l1 - l0 > worst[0]:
+                worst = (l1 - l0, p, rel)
+    run.count("i6_mle_optimality_checks")
+    if os.environ.get("VERIF_CALIB") and worst[0] > 0:
+        with open(f"{os.environ['VERIF_CALIB']}.{os.getpid()}", "a") as f:
+            f.write(f"i6 {fam} {'+'.join(sorted(scen['fixed']))} {op['source']} {len(data)} {worst[0]:.4e} {worst[0] / len(data):.4e} {worst[1]} {worst[2]}\n")
+    if fam in TOL_I6 and worst[0] > TOL_I6[fam] * len(data):
+        run.violate("I6-free-parameters-not-the-mle-given-the-fixed-ones", f"{fam}/{'+'.join(sorted(scen['fixed']))}", {"params": cur, "log_likelihood": l0, "gain": worst[0], "by_changing": worst[1], "relative_change": worst[2], "n": len(data), "source": op["source"], "step": step})
+        return True
+    return False
 
 
 def check_state(run, scen, dist, where, step):
@@ -396,9 +455,13 @@ def execute(prop, scen):
             if not all(math.isfinite(float(after[p])) for p in free):
                 run.violate("I2-free-parameters-finite", f"{fam}/{op['method'].lower()}", {"params": after, "step": si})
                 return run
-            if op["source"] == "scaled" and all(float(after[p]) == float(before[p]) for p in free):
+            if op["source"] in ("scaled", "misfixed") and all(float(after[p]) == float(before[p]) for p in free):
                 run.violate("I2-free-parameters-estimated", f"{fam}/{op['method'].lower()}", {"before": before, "after": after, "step": si})
                 return run
+            if op["method"].lower() == "mle":
+                bad = check_mle_optimal(run, scen, dist, np.asarray(data, dtype=float), si, op)
+                if bad:
+                    return run
             if failed_before:
                 run.count("probe:clean-fit-after-failed-fit")
                 failed_before = False
